@@ -6,7 +6,7 @@ from ..linear import linear, relation, fmt, rel_str
 from ..symb import feasible_reach, feasible_armed_reach
 from ..charclass import byteset, describe, CTYPE, bytevalue, _truth as byte_truth
 from ..inteval import ieval
-from .common import strip_casts, short, comparison, once_init, iteration_starts, stale_across_iterations
+from .common import strip_casts, short, comparison, once_init, iteration_starts, stale_across_iterations, subtree_through_locals
 from . import c14
 from .c07 import _select_kind
 
@@ -29,6 +29,7 @@ EXPLANATION = (
 EXPLANATION += ' C15.R3 also requires the 4096 limit to be tested on key and value as the tokenizer delivered them (no re-assignment reaching the guard); C15.R4 that ToHeader passes the stored text (or its part before the metadata separator) to UrlEncode unaltered; C15.R5 that the baggage is set into the context Extract was given.'
 ROUND2_EXPLANATION = (" C15.R6 also: with no propagator configured Extract returns the caller's context. C15.R7: the character predicate of keys / values accepts exactly 0x20..0x7E (all 256 bytes evaluated with char signed). C15.R8: a flag that calls in the member loop set through an out-parameter is re-initialised on every path from the start of an iteration to its first mention.")
 ROUND2_EXPLANATION += (' Shared C14.R8: a separator is written between members and not before the first. Shared C19.R1: the public baggage API hands out no mutable reference to the shared key-value store.')
+ROUND2_EXPLANATION += (" C15.R4 also (shape of the header round trip): both sides cut a value exactly at the position find() returned for the metadata separator (linear forms of the substr arguments); FromHeader stores a value only after the append of the metadata it split off, or behind the outcome 'no metadata'; key and value are decoded from text trimmed the same way; ToHeader passes the key-value separator on every path.")
 EXPLANATION += ROUND2_EXPLANATION
 NOT_DECIDED = 'round trip over all printable inputs; freedom from out-of-bounds reads on arbitrary bytes beyond the escape guard.'
 
@@ -192,6 +193,117 @@ def _if_chain(f, loop):
     return out
 
 
+def _substr_from_only(f, n):
+    """substr(pos) - the count is absent or the defaulted npos"""
+    a = n.get('args', [])
+    if len(a) == 1:
+        return True
+    return len(a) == 2 and (1 in (n.get('defargs') or []) or (a[1] is not None and a[1] >= 0 and f.nodes[a[1]]['k'] == 'defarg'))
+
+
+def _rule_r4_roundtrip_shape(ck, prog, rule, th, fh):
+    """structural necessary conditions of the header round trip that only need the two functions themselves:
+    (a) both sub-views that split a value at the metadata separator start / end exactly at the position find() returned;
+    (b) the reader re-attaches the metadata it split off before it stores the value;
+    (c) key and value are decoded from text that went through the same trimming;
+    (d) the writer puts the key-value separator between the encoded key and the value on every path."""
+    # (a) positions
+    for (fx, side) in ((th, 'ToHeader'), (fh, 'FromHeader')):
+        g = Graph(prog, fx, inline=None, sync_lambdas=False)
+        rd = reaching_defs(g)
+        finds = [n for n in fx.nodes if n['k'] == 'call' and strip_targs(n.get('c', '')).endswith('string_view::find') and
+                 any(fx.nodes[j]['k'] == 'ref' and fx.nodes[j].get('name') == 'kMetadataSeparator' for a in n.get('args', []) if a is not None and a >= 0 for j in list(fx.subtree(a)) + [a])]
+        subs = [p for p in g.points if p.n is not None and p.f is fx and p.n['k'] == 'call' and strip_targs(p.n.get('c', '')).endswith('string_view::substr') and p.n.get('args')]
+        if not finds or not subs:
+            continue       # split done in a helper: the symmetric-split obligation above is all that is decided
+        posvars = {d['id']: d['name'] for n in fx.nodes if n['k'] == 'declstmt' for d in n['decls'] if d.get('init') is not None and d['init'] >= 0 and
+                   strip_casts(fx, d['init']) in finds}
+        if len(posvars) != 1:
+            continue
+        pid, pname = list(posvars.items())[0]
+        key = 'local:%s:%s' % (pid, pname)
+        bad = None
+        for sp in subs:
+            args = sp.n['args']
+            forms = [linear(g, rd, fx, a, sp.ctx) if (a is not None and a >= 0) else None for a in args]
+            f0 = forms[0] if forms else None
+            f1 = forms[1] if len(forms) > 1 else None
+            if f0 is not None and key in f0 and f0 != {key: 1}:
+                bad = (sp, 'the metadata part starts at %s' % fmt(f0))
+            if f0 == {} and f1 is not None and key in f1 and f1 != {key: 1}:
+                bad = (sp, 'the value part ends at %s' % fmt(f1))
+        ck.verdict(bad is None, rule, fx, 'metadata-split-at-separator@' + side, (bad[0].n if bad else subs[0].n),
+                   'value = [0, pos), metadata = [pos, end) with pos the position of the separator' if bad is None else
+                   '%s: %s instead of the position of the separator: the separator (or a character next to it) is lost or duplicated on a round trip' % (side, bad[1]))
+    # (b) metadata re-attached
+    g = Graph(prog, fh, inline=None, sync_lambdas=False)
+    rd = reaching_defs(g)
+    adds = [p for p in g.points if p.n is not None and p.f is fh and p.n['k'] == 'call' and strip_targs(p.n.get('c', '')).endswith('KeyValueProperties::AddEntry')]
+    metas = {d['id']: d['name'] for n in fh.nodes if n['k'] == 'declstmt' for d in n['decls'] if 'string_view' in (d.get('t') or '') and
+             any(m['k'] == 'binop' and m['op'] == '=' and strip_casts(fh, m['lhs']).get('id') == d['id'] and
+                 any(fh.nodes[j]['k'] == 'call' and strip_targs(fh.nodes[j].get('c', '')).endswith('string_view::substr') and _substr_from_only(fh, fh.nodes[j]) for j in list(fh.subtree(m['rhs'])) + [m['rhs']])
+                 for m in fh.nodes) or
+             (d.get('init') is not None and d['init'] >= 0 and any(fh.nodes[j]['k'] == 'call' and strip_targs(fh.nodes[j].get('c', '')).endswith('string_view::substr') and _substr_from_only(fh, fh.nodes[j])
+                                                                  for j in list(fh.subtree(d['init'])) + [d['init']]))}
+    # (the assignments above are operator= calls for string_view in the IR)
+    if not metas:
+        for n in fh.nodes:
+            if n['k'] == 'call' and n.get('op') == '=' and n.get('obj') is not None and n.get('args'):
+                tgt = strip_casts(fh, n['obj'])
+                if tgt['k'] == 'ref' and 'string_view' in (tgt.get('t') or '') and \
+                        any(fh.nodes[j]['k'] == 'call' and strip_targs(fh.nodes[j].get('c', '')).endswith('string_view::substr') and _substr_from_only(fh, fh.nodes[j])
+                            for j in list(fh.subtree(n['args'][0])) + [n['args'][0]]):
+                    metas[tgt['id']] = tgt['name']
+    if adds and len(metas) == 1:
+        mid = list(metas)[0]
+        apps = [p for p in g.points if p.n is not None and p.f is fh and p.n['k'] == 'call' and strip_targs(p.n.get('c', '')).rsplit('::', 1)[-1] in ('append', 'operator+=') and
+                any(fh.nodes[j]['k'] == 'ref' and fh.nodes[j].get('id') == mid for a in p.n.get('args', []) if a is not None and a >= 0 for j in list(fh.subtree(a)) + [a])]
+        ok = bool(apps)
+        if ok:
+            # an AddEntry is reached without the append only over the outcome "metadata is empty"
+            def empty_edge(a, b, lab):
+                if not lab or not isinstance(lab[0], int) or lab[1] is not fh:
+                    return False
+                core, pol = norm_cond(fh, lab[0])
+                n = fh.nodes[core]
+                if n['k'] == 'call' and strip_targs(n.get('c', '')).rsplit('::', 1)[-1] == 'empty' and n.get('obj') is not None and strip_casts(fh, n['obj']).get('id') == mid:
+                    return (lab[2] if pol else not lab[2]) is True
+                return False
+            # every path to the store passes the append or the outcome "no metadata"
+            r = g.reachable_from(g.entry, avoid=apps, avoid_edges=empty_edge)
+            ok = not any(p.id in r for p in adds)
+            if not ok:
+                # another spelling of "there is metadata" (size() > 0, length() != 0 ...) in front of the append: not decided
+                pm_ = fh.parent_map()
+                tests = [n for n in fh.nodes if n['k'] == 'call' and strip_targs(n.get('c', '')).rsplit('::', 1)[-1] in ('size', 'length') and n.get('obj') is not None and
+                         strip_casts(fh, n['obj']).get('id') == mid and n['i'] in pm_ and
+                         (comparison(fh, pm_[n['i']]) or (pm_[n['i']] in pm_ and comparison(fh, pm_[pm_[n['i']]])))]
+                if tests:
+                    ck.inconclusive(rule, fh, 'reader-reattaches-metadata', apps[0].n, 'the append of the metadata is guarded by a test this rule does not read')
+                    ok = None
+        if ok is None:
+            pass
+        else:
+            ck.verdict(ok, rule, fh, 'reader-reattaches-metadata', (apps or adds)[0].n, 'the metadata split off a value is appended again before the value is stored' if ok else
+                       'FromHeader splits the metadata off a value and stores the value without it: properties after ";" are lost on a round trip')
+    # (c) same trimming for key and value
+    decs = [n for n in fh.nodes if n['k'] == 'call' and strip_targs(n.get('c', '')).endswith('Baggage::UrlDecode') and n.get('args')]
+    if len(decs) == 2:
+        trimmed = [any(fh.nodes[j]['k'] == 'call' and strip_targs(fh.nodes[j].get('c', '')).endswith('StringUtil::Trim') for j in list(subtree_through_locals(fh, n['args'][0])) + [n['args'][0]]) for n in decs]
+        ok = trimmed[0] == trimmed[1]
+        ck.verdict(ok, rule, fh, 'key-and-value-trimmed-alike', decs[0], 'key and value are decoded from text trimmed the same way' if ok else
+                   'FromHeader trims surrounding whitespace off only one of key / value before decoding: "k = v" keeps a blank on one side (and a value with a leading blank fails the validity class)')
+    # (d) key-value separator written on every path between the key and the value
+    gt = Graph(prog, th, inline=None, sync_lambdas=False)
+    seps = [p for p in gt.points if p.n is not None and p.f is th and p.n['k'] == 'call' and strip_targs(p.n.get('c', '')).rsplit('::', 1)[-1] in ('push_back', 'append', 'operator+=') and
+            any(th.nodes[j]['k'] == 'ref' and th.nodes[j].get('name') == 'kKeyValueSeparator' for a in p.n.get('args', []) if a is not None and a >= 0 for j in list(th.subtree(a)) + [a])]
+    encs = [p for p in gt.points if p.n is not None and p.f is th and p.n['k'] == 'call' and strip_targs(p.n.get('c', '')).endswith('Baggage::UrlEncode')]
+    if encs:
+        ok = bool(seps) and gt.exit.id not in gt.reachable_from(gt.entry, avoid=seps)
+        ck.verdict(ok, rule, th, 'key-value-separator-written', (seps or encs)[0].n, 'every member gets its "=" on every path' if ok else
+                   'ToHeader can write a member without the key-value separator: the header does not parse back into the same pairs')
+
+
 def rule_r4(ck, prog, rule='C15.R4'):
     enc = prog.function('baggage::Baggage::UrlEncode')
     dec = prog.function('baggage::Baggage::UrlDecode')
@@ -288,6 +400,8 @@ def rule_r4(ck, prog, rule='C15.R4'):
         return False
     ok = bool(th) and uses_sep_deep(th[0]) and uses_sep_deep(fh)
     ck.verdict(ok, rule, fh, 'metadata-bypass-symmetric', None, 'both sides split at the metadata separator' if ok else 'the metadata part is not split off symmetrically by ToHeader and FromHeader')
+    if ok:
+        _rule_r4_roundtrip_shape(ck, prog, rule, th[0], fh)
     if th:
         lf = th[0]
         encs = [n for n in lf.nodes if n['k'] == 'call' and strip_targs(n.get('c', '')).endswith('Baggage::UrlEncode')]
